@@ -129,4 +129,11 @@ theorem source_scale_arithmetic_is_the_model (s L d maxd e sum af : Nat) (hs : 1
       = ((2 ^ ((e - (sum + 1) / 3) + af) : Nat) : Int) :=
   Source.scales_arith_eq_model s L d maxd e sum af hs hbase
 
+/-- the hypotheses of `generated_scales_served_by_encoders` are met by a uint16 volume asked to become a
+    compressed_segmentation pyramid of two levels: the type is promoted to uint32 and both scales get the codec -/
+example :
+    let i := Pipeline.allInOneInfo 2 ⟨none, "uint16", 1, [⟨0, none, none⟩]⟩ none (some "compressed_segmentation")
+    i.dataType = "uint32" ∧ i.scales.length = 2 ∧
+    i.scales.all (fun s => Enc.select (Enc.ofInfo i s) == some .cseg) = true := by decide
+
 end NgVerif.Props.C08
